@@ -9,7 +9,7 @@
 
 static const char *ARM[] = { "setword", "setword", "setbyte", "set3", "hsfield", "hsfield", "hsfield", "flipbit", "flipbit", "trunc", "extend", "setlen", "setlen",
                              "type", "ver", "epoch", "seq", "dup", "drop", "swapnext", "refrag", "refrag", "grow", "grow", "grow", "shrink", "fragmove", "cutfront", "vecgrow", "vecgrow", "vecgrow" };
-static const char *INJ[] = { "garbage", "plain23", "replay", "reflect", "cross", "relabel", "alert", "hsmsg", "hsmsg", "ccs", "ccs_tail" };
+static const char *INJ[] = { "garbage", "plain23", "replay", "reflect", "cross", "relabel", "alert", "hsmsg", "hsmsg", "ccs", "ccs_tail", "regrow" };
 static const int PMTUS[] = { 1500, 1500, 900, 600, 400 };
 
 static void add_fault(Rng &r, Plan &p, bool aead) {
@@ -163,6 +163,25 @@ static std::vector<Plan> c08_fixed(int tier) {
                     p.ops.push_back(Op("deliverq", 1 - victim));
                     p.ops.push_back(Op("pump"));
                     v.push_back(p);
+                }
+            }
+        }
+    }
+    // a second copy of an earlier plaintext handshake record with one of its vectors grown (DTLS: a HelloVerifyRequest retransmission with a
+    // longer cookie, ...), injected at every parking point
+    for (int ver = 0; ver < 5; ver++) {
+        for (int park = 1; park <= (ver >= 3 ? 7 : 4); park++) {
+            for (int dir = 0; dir < 2; dir++) {
+                for (int which = 0; which < 3; which++) {
+                    for (int cand = 0; cand < (tier ? 10 : 4); cand++) {
+                        Plan p; p.seed = 81000 + (uint64_t) ((((ver * 8 + park) * 2 + dir) * 3 + which) * 10 + cand);
+                        p.cfg["ver"] = ver;
+                        if (ver == 2) { p.cfg["suite"] = TLS_AES_128_GCM_SHA256; p.cfg["sid_kind"] = KK_EC256; } else { p.cfg["suite"] = TLS_ECDHE_RSA_WITH_AES_128_CBC_SHA; }
+                        p.ops.push_back(Op("steps", park));
+                        p.ops.push_back(Op("inject", dir, which, cand * 3, cand, "regrow"));
+                        p.ops.push_back(Op("hs"));
+                        v.push_back(p);
+                    }
                 }
             }
         }
